@@ -4,3 +4,7 @@ import Ndt.Model.Dea3
 import Ndt.Driver.Main
 import Ndt.Proofs.FieldNum
 import Ndt.Props.C13
+import Ndt.Model.Poly
+import Ndt.Model.Richardson
+import Ndt.Proofs.Poly
+import Ndt.Props.C07
